@@ -30,6 +30,8 @@ pub struct Stats {
 }
 
 pub const MAX_SET: usize = 50_000;
+/// Cap of the merged sets (worker level: MAX_SET; driver level: all workers together).
+pub const MAX_SET_MERGED: usize = 2_000_000;
 
 pub fn fnv(data: &[u8]) -> u64 {
     let mut h: u64 = 0xcbf29ce484222325;
@@ -145,6 +147,10 @@ impl Stats {
     }
 
     pub fn merge(&mut self, o: Stats) {
+        self.merge_capped(o, MAX_SET_MERGED)
+    }
+
+    pub fn merge_capped(&mut self, o: Stats, cap: usize) {
         self.runs += o.runs;
         self.executions += o.executions;
         self.nontrivial_runs += o.nontrivial_runs;
@@ -156,9 +162,9 @@ impl Stats {
         for (k, v) in o.faults { *self.faults.entry(k).or_insert(0) += v; }
         for (k, v) in o.probes { *self.probes.entry(k).or_insert(0) += v; }
         for (k, v) in o.outcomes { *self.outcomes.entry(k).or_insert(0) += v; }
-        self.states.extend(o.states);
-        self.bigrams.extend(o.bigrams);
-        self.scripts.extend(o.scripts);
+        for x in o.states { if self.states.len() < cap { self.states.insert(x); } }
+        for x in o.bigrams { if self.bigrams.len() < cap { self.bigrams.insert(x); } }
+        for x in o.scripts { if self.scripts.len() < cap { self.scripts.insert(x); } }
         for s in o.samples { if self.samples.len() < 4 { self.samples.push(s); } }
     }
 }
